@@ -83,7 +83,8 @@ class _SymWeights:
 class Ctx:
     def __init__(self, symbolic, weights_mode='distinct', weights=None):
         self.symbolic = symbolic
-        self.goals = set()
+        self.goals = set()      # decided by branch outcomes: hold for every value of the path
+        self.soft_goals = set() # satisfiable on the path (solver-checked), not necessarily in every model
         self.counters = {'events': 0, 'checks': 0, 'ops': 0}
         self.notes = []
         if symbolic:
@@ -92,58 +93,172 @@ class Ctx:
             self.rng = _Popper(weights or [])
 
     # -- monitors ---------------------------------------------------------
+    # Monitors are written once and run in both modes: in the symbolic worker the
+    # numbers they see are z3 terms (``z`` converts CrossHair proxies at the
+    # boundary), comparisons build z3 BoolRefs and ``require`` asks the solver whether
+    # the negation is satisfiable on the current path (one query, no fork, no tracing
+    # overhead); in the replayer the same code sees Python ints and bools.
+    def z(self, v):
+        """CrossHair proxy -> z3 term (ints/bools); containers converted element-wise."""
+        if not self.symbolic:
+            return v
+        from crosshair.tracers import NoTracing
+        with NoTracing():     # under tracing type() lies about proxies
+            return self._z(v)
+
+    def _z(self, v):
+        t = type(v)
+        if t in (int, bool, str, float) or v is None:
+            return v
+        var = getattr(v, 'var', None)
+        if var is not None and hasattr(v, '__ch_realize__'):
+            return var
+        if t is tuple:
+            return tuple(self._z(x) for x in v)
+        if t is list:
+            return [self._z(x) for x in v]
+        if t is dict:
+            return {k: self._z(x) for k, x in v.items()}
+        return v
+
     def fail(self, label, detail=''):
         raise PropertyViolation(label, detail)
 
+    def _is_sym(self, c):
+        if not self.symbolic:
+            return False
+        import z3
+        return isinstance(c, z3.ExprRef)
+
     def require(self, cond, label, detail=''):
         self.counters['checks'] += 1
+        if self._is_sym(cond):
+            import z3
+            from crosshair.statespace import context_statespace
+            from crosshair.tracers import NoTracing
+            with NoTracing():
+                space = context_statespace()
+                neg = z3.simplify(z3.Not(cond))
+                if z3.is_false(neg):
+                    return
+                if space.is_possible(neg):
+                    if not z3.is_true(neg):
+                        space.add(neg)      # commit: the model of this path is now a counterexample
+                    raise PropertyViolation(label, detail)
+            return
+        if hasattr(cond, '__ch_realize__'):
+            cond = self.z(cond)
+            return self.require(cond, label, detail)
         if not cond:
             raise PropertyViolation(label, detail)
+
+    def possible(self, cond):
+        """Can ``cond`` hold on the current path?  (no fork)"""
+        if hasattr(cond, '__ch_realize__'):
+            cond = self.z(cond)
+        if self._is_sym(cond):
+            import z3
+            from crosshair.statespace import context_statespace
+            from crosshair.tracers import NoTracing
+            with NoTracing():
+                c = z3.simplify(cond)
+                if z3.is_true(c):
+                    return True
+                if z3.is_false(c):
+                    return False
+                self.counters['checks'] += 1
+                return context_statespace().is_possible(c)
+        return bool(cond)
+
+    def decide(self, cond):
+        """Branch on a (possibly symbolic) condition: forks CrossHair's search."""
+        if self._is_sym(cond):
+            import z3
+            from crosshair.libimpl.builtinslib import SymbolicBool
+            from crosshair.tracers import NoTracing
+            with NoTracing():
+                c = z3.simplify(cond)
+                if z3.is_true(c):
+                    return True
+                if z3.is_false(c):
+                    return False
+                return SymbolicBool(c).__bool__()
+        return bool(cond)
+
+    def assume(self, cond):
+        """Restrict the current path (symbolic) / check the replayed values (concrete)."""
+        if self._is_sym(cond):
+            from crosshair.statespace import context_statespace
+            from crosshair.tracers import NoTracing
+            from crosshair.util import IgnoreAttempt
+            with NoTracing():
+                space = context_statespace()
+                if not space.is_possible(cond):
+                    raise IgnoreAttempt('assumption unsatisfiable')
+                space.add(cond)
+            return
+        if not cond:
+            raise AssertionError('replayed values violate a harness assumption')
+
+    # boolean / arithmetic combinators that work on z3 terms and on Python values
+    def And(self, *cs):
+        if any(self._is_sym(c) for c in cs):
+            import z3
+            return z3.And(*[c if self._is_sym(c) else z3.BoolVal(bool(c)) for c in cs])
+        return all(cs)
+
+    def Or(self, *cs):
+        if any(self._is_sym(c) for c in cs):
+            import z3
+            return z3.Or(*[c if self._is_sym(c) else z3.BoolVal(bool(c)) for c in cs])
+        return any(cs)
+
+    def Not(self, c):
+        if self._is_sym(c):
+            import z3
+            return z3.Not(c)
+        return not c
+
+    def Implies(self, a, b):
+        return self.Or(self.Not(a), b)
+
+    def If(self, c, a, b):
+        if self._is_sym(c):
+            import z3
+            conv = lambda v: v if isinstance(v, z3.ExprRef) else (z3.BoolVal(v) if type(v) is bool else z3.IntVal(v))
+            return z3.If(c, conv(a), conv(b))
+        return a if c else b
+
+    def Max(self, a, *rest):
+        m = a
+        for b in rest:
+            m = self.If(m >= b, m, b)
+        return m
+
+    def Min(self, a, *rest):
+        m = a
+        for b in rest:
+            m = self.If(m <= b, m, b)
+        return m
 
     def goal(self, name):
         self.goals.add(name)
 
+    def goal_if(self, name, cond):
+        """Record the goal if it is reachable on this path (symbolic: satisfiable)."""
+        if name in self.goals or name in self.soft_goals:
+            return
+        if self._is_sym(cond) or hasattr(cond, '__ch_realize__'):
+            if self.possible(cond):
+                self.soft_goals.add(name)
+        elif cond:
+            self.goals.add(name)
+
     def count(self, key, n=1):
         self.counters[key] = self.counters.get(key, 0) + n
 
-    # -- symbolic helpers ---------------------------------------------------
     def notrace(self):
         if self.symbolic:
             from crosshair.tracers import NoTracing
             return NoTracing()
         return contextlib.nullcontext()
-
-    def possible(self, cond):
-        """Is ``cond`` satisfiable on the current path?  Does not fork the search.
-        Concretely: just bool(cond)."""
-        if not self.symbolic:
-            return bool(cond)
-        from crosshair.statespace import context_statespace
-        from crosshair.tracers import NoTracing
-        with NoTracing():
-            if type(cond) is bool:
-                return cond
-            space = context_statespace()
-            self.counters['checks'] += 1
-            return space.is_possible(cond)
-
-    def require_valid(self, cond, label, detail=''):
-        """Fail iff ``not cond`` is satisfiable on the current path (one solver
-        query, no fork on the holding side)."""
-        self.counters['checks'] += 1
-        if not self.symbolic:
-            if not cond:
-                raise PropertyViolation(label, detail)
-            return
-        from crosshair.tracers import NoTracing
-        with NoTracing():
-            concrete = type(cond) is bool
-        if concrete:
-            if not cond:
-                raise PropertyViolation(label, detail)
-            return
-        # fork only if the violating side is satisfiable: `if not cond` lets
-        # CrossHair pick the violating branch when feasible, so the model it
-        # realises is a counterexample.
-        if not cond:
-            raise PropertyViolation(label, detail)
